@@ -223,6 +223,20 @@ def h_timestamp(env):
         env.check("witness:betterproto-reads-reference-timestamp-json", back.t == dt, r.ToJsonString())
         back = mod.M().from_dict(m.to_dict())
         env.check("witness:timestamp-json-round-trip", back.t == dt, repr(m.to_dict()))
+        # RFC 3339 text that carries the numeric offset of the local clock instead of "Z": the same instant
+        local_text = dt.isoformat()
+        r3 = timestamp_pb2.Timestamp()
+        try:
+            r3.FromJsonString(local_text)
+            accepted = (r3.seconds, r3.nanos) == (want_s, want_us * 1000)
+        except Exception:
+            accepted = False  # outside what the reference reads: no verdict
+        if accepted:
+            try:
+                back = mod.M().from_dict({"t": local_text})
+                env.check("witness:betterproto-reads-rfc3339-with-numeric-offset", back.t == dt and bytes(back) == data, "%s -> %r" % (local_text, back.t))
+            except Exception as e:
+                env.check("witness:betterproto-reads-rfc3339-with-numeric-offset", False, "%s: %r" % (local_text, e))
 
 
 def _text(env, pieces):
